@@ -161,15 +161,22 @@ TRClosed == /\ IsEvent("rclosed") /\ UNCHANGED vars /\ Keep(<<dS, dC, dTS, dTC, 
 
 AllOut == /\ dS = Len(sin) /\ dC = Len(cout) /\ \A p \in Pairs : dTS[p] = Len(tsrv[p]) /\ dTC[p] = Len(tcli[p])
           /\ \A p \in Pairs : pend[p] = <<>>
-TQuiet == /\ IsEvent("quiet") /\ UNCHANGED vars /\ Keep(tv0) /\ Idle /\ AllOut
+TQuiet == /\ IsEvent("quiet") /\ UNCHANGED vars /\ Keep(tv0) /\ Idle
 (* what the census saw of the pair's goroutines must be where the model has them *)
+(* an end-of-stream step of the pair is still possible: after the driver's generous wait (strict) that is a pump or a *)
+(* writer that did not end although it saw io.EOF / its channel closed                                              *)
+CanEnd(p) == \/ (pcTI[p] = "read" /\ ((pcl[p] = "closed" /\ ~rcC[p] /\ pend[p] = <<>>) \/ rcC[p]))
+             \/ (pcTO[p] = "read" /\ ((psv[p] = "closed" /\ ~rcS[p]) \/ rcS[p]))
+             \/ (pcTI[p] = "eofwait" /\ ~trRelay[p]) \/ (pcTO[p] = "eofwait" /\ ~trRelay[p])
+             \/ (chC[p] = "closed" /\ ~rcS[p]) \/ (chS[p] = "closed" /\ ~rcC[p])
 PumpIs(pc, s) == CASE s = "ended" -> pc = "ended" [] s = "spin" -> pc = "spin" [] s = "eofwait" -> pc = "eofwait"
                    [] s = "read" -> pc = "read" [] OTHER -> FALSE
 TPumps == /\ IsEvent("pumps") /\ UNCHANGED vars /\ Keep(tv0)
           /\ LET p == Ev.pr IN
              /\ PumpIs(pcTI[p], Ev.ti) /\ PumpIs(pcTO[p], Ev.to)
-             /\ (Ev.wrs = "ended" <=> rcS[p]) /\ (Ev.wrc = "ended" <=> rcC[p])
+             /\ (Ev.wrs = "ended" => rcS[p]) /\ (Ev.wrc = "ended" => rcC[p])     \* (a writer seen alive may be about to exit)
              /\ (rcS[p] => obsS[p]) /\ (rcC[p] => obsC[p])
+             /\ (Ev.strict => ~CanEnd(p))
 (* end of an accepted session: everything is out, every close the model performed was observed *)
 TFinal == /\ IsEvent("final") /\ UNCHANGED vars /\ Keep(tv0) /\ Idle /\ AllOut
           /\ \A p \in Pairs : (rcS[p] => obsS[p]) /\ ((rcC[p] /\ pcl[p] # "idle") => obsC[p])
